@@ -128,6 +128,7 @@ PRODS = {
         ("add(**{0})", ["dict"]), ("ident({0})", ["int"]), ("({0} if {1} else {2})", ["int", "bool", "int"]), ("(t := {0})", ["int"]),
         ("(t := {0}) + t", ["int"]), ("len({0})", ["str"]), ("int({0})", ["bool"]), ("{0} / 2", ["int"]), ("abs({0} or {1})", ["int", "int"]),
         ("abs({0} and {1})", ["int", "int"]), ("len({0}[{1}:])", ["list", "int"]), ("len(str({0}))", ["int"]),
+        ("+{0}", ["bool"]), ("-{0}", ["bool"]),   # unary operators change the type of a bool operand
     ],
     "bool": [
         ("{0} < {1}", ["int", "int"]), ("{0} <= {1}", ["int", "int"]), ("{0} > {1}", ["int", "int"]), ("{0} >= {1}", ["int", "int"]),
